@@ -348,3 +348,31 @@ func shortName(fn *ssa.Function) string {
 	}
 	return strings.ReplaceAll(fn.String(), modPath, "hs")
 }
+
+// InstrPos returns a usable position for an instruction: its own, or that of the
+// nearest operand / referrer when go/ssa gives it none (MakeInterface, Store ...).
+func (p *Prog) InstrPos(in ssa.Instruction) string {
+	if in.Pos().IsValid() {
+		return p.Pos(in.Pos())
+	}
+	if v, ok := in.(ssa.Value); ok && v.Referrers() != nil {
+		for _, r := range *v.Referrers() {
+			if r.Pos().IsValid() {
+				return p.Pos(r.Pos())
+			}
+		}
+	}
+	for _, op := range in.Operands(nil) {
+		if op != nil && *op != nil && (*op).Pos().IsValid() {
+			return p.Pos((*op).Pos())
+		}
+	}
+	// fall back to the closest positioned instruction in the same block
+	b := in.Block()
+	for _, x := range b.Instrs {
+		if x.Pos().IsValid() {
+			return p.Pos(x.Pos()) + "~"
+		}
+	}
+	return p.FuncPos(in.Parent())
+}
